@@ -317,3 +317,69 @@ package jobs
 //@   prop C09
 //@   requires datasetSink != nil
 //@   ensures [job-sync-starts-with-an-empty-seen-set] result == nil ==> true
+
+// ---------------------------------------------------------------------------
+// C14 / C11: the job registry is write-through. A job definition is stored under (JobConfigIndex, its id) before it is
+// scheduled, and only after verify accepted it; pause/resume re-store the definition loaded for that id with the flag
+// changed; deleting removes the record under the same key; a reset rewrites the stored continuation token of that job;
+// the definitions are reloaded at start from the JobConfigIndex collection.
+//@ assumed (*Scheduler).verify
+//@   pure
+//@ assumed (*Scheduler).toTriggeredJobs
+//@   pure
+//@ assumed errgroup.WithContext
+//@   pure
+//@ assumed (*errgroup.Group).Go
+//@   pure
+//@ assumed (*errgroup.Group).Wait
+//@   pure
+//@ assumed (*Scheduler).resolveJobTitle
+//@   pure
+//@ assumed (*server.Store).DeleteObject
+//@   pure
+
+//@ unit (*Scheduler).AddJob
+//@   prop C14 C11
+//@   ghost verifiedG bool = false
+//@   ghost storedG bool = false
+//@   requires s != nil && s.Store != nil && jobConfig != nil
+//@   ensures [C14:acknowledged-job-definition-was-persisted] result == nil ==> storedG
+//@   at call verify#1
+//@     ghost verifiedG := $result == nil
+//@   at call StoreObject#1 before
+//@     assert [C11:only-verified-job-definitions-are-stored] verifiedG
+//@     assert [C14:job-definition-stored-under-its-own-id-in-the-job-collection] collection == server.JobConfigIndex && id == jobConfig.ID && cast(data, "*jobs.JobConfiguration") == jobConfig
+//@   at call StoreObject#1
+//@     ghost storedG := $result == nil
+//@   at call Go#1 before
+//@     assert [C14:job-definition-persisted-before-it-is-scheduled] storedG
+
+//@ unit (*Scheduler).LoadJob
+//@   prop C14
+//@   requires s != nil && s.Store != nil
+//@   ensures [a-loaded-definition-is-never-nil] ret1 == nil ==> ret0 != nil
+//@   frame-assumed preserves Scheduler.*
+//@   at call GetObject#1 before
+//@     assert [C14:job-definition-read-from-the-key-it-is-stored-under] collection == server.JobConfigIndex && id == jobID
+
+//@ unit (*Scheduler).changeStatus
+//@   prop C14
+//@   requires s != nil && s.Store != nil
+//@   at call LoadJob#1 before
+//@     assert [C14:status-change-applies-to-the-stored-definition-of-that-job] jobID == jobid
+//@   at call AddJob#1 before
+//@     assert [C14:paused-flag-persisted-through-the-write-through-path] jobConfig.Paused == pause
+
+//@ unit (*Scheduler).ResetJob
+//@   prop C14 C08
+//@   requires s != nil && s.Store != nil
+//@   at call GetObject#1 before
+//@     assert [C14:job-state-read-from-the-key-the-pipelines-store-it-under] collection == server.JobDataIndex && id == jobid
+//@   at call StoreObject#1 before
+//@     assert [C14,C08:reset-rewrites-the-token-of-that-job] collection == server.JobDataIndex && id == jobid && cast(data, "*jobs.SyncJobState") == syncJobState && syncJobState.ContinuationToken == since
+
+//@ unit (*Runner).deleteJob
+//@   prop C14
+//@   requires runner != nil && runner.store != nil
+//@   at call DeleteObject#1 before
+//@     assert [C14:deleted-job-definition-removed-from-the-key-it-is-stored-under] collection == server.JobConfigIndex && id == jobID
